@@ -76,24 +76,29 @@ def oracle(p, c, o):
         # the clean-up a group promises: every member is cancelled and awaited
         budget = T.total_react(p)
         for g in groups:
-            if not g['entered'] <= c <= g['t'] or lost_to_deadline:
+            # the instant at which the cancellation reached the task that runs this group: the
+            # external cancel for the program's own groups, for a group run by a member (a
+            # subgroup) the instant its parent group cancelled that member
+            hit = c if g['owned_by_program'] else (g['owner_member'] or {}).get('cancel_seen')
+            if hit is None or not g['entered'] <= hit <= g['t'] or lost_to_deadline:
                 # (F23: the clean-up was cut short by the deadline's cancellation - reported above)
                 continue
             ms = g['members']
             # the group had already begun stopping by itself (policy met, body or member failure,
             # an enclosing timeout) when the cancel came: one of its members had been cancelled
             # by it before (cancel requests on the harness's own member tasks)
-            stopping = any(m['cancel_seen'] is not None and m['cancel_seen'] < c for m in ms)
+            stopping = any(m['cancel_seen'] is not None and m['cancel_seen'] < hit for m in ms)
+            # members still running when the group was left
             left = [i for i, m in enumerate(ms)
-                    if m['finished'] is None or m['finished'] > o['t']]
+                    if m['finished'] is None or m['finished'] > g['t']]
             if left:
                 key = 'c12:cancelled-while-join-awaits-cancelled-members' if stopping \
                     else 'c12:group-members-left'
-                bad.append((key, f'cancelled at {c}: the task ended at {o["t"]} but members {left} '
-                                 f'of a group it was inside are still running'))
+                bad.append((key, f'cancelled at {c} (reaching this group at {hit}): the group was '
+                                 f'left at {g["t"]} but its members {left} are still running'))
             free = [i for i, m in enumerate(ms)
                     if m['done'] and not m['cancelled'] and m['cancel_seen'] is None
-                    and m['finished'] is not None and m['finished'] > c + budget]
+                    and m['finished'] is not None and m['finished'] > hit + budget]
             if free and not stopping:
                 bad.append(('c12:group-members-not-cancelled',
                             f'cancelled at {c}: members {free} were running then, were never '
